@@ -72,6 +72,12 @@ def sliceFrom (b : Bytes) (lo : Nat) : R Bytes :=
 def copyFromSlice (buf : Bytes) (lo hi : Nat) (src : Bytes) : R Bytes :=
   if lo ≤ hi ∧ hi ≤ buf.length ∧ src.length = hi - lo then .ok (buf.take lo ++ src ++ buf.drop hi) else .error .panic
 
+/-- the derived order of `Option<u64>`: `None < Some(_)`, `Some` by value -/
+def optLt : Option Nat → Option Nat → Bool
+  | none, some _ => true
+  | some a, some b => decide (a < b)
+  | _, none => false
+
 /-- `buf[i] = v` -/
 def setIdx (buf : Bytes) (i : Nat) (v : UInt8) : R Bytes :=
   if i < buf.length then .ok (buf.set i v) else .error .panic
@@ -83,6 +89,20 @@ inductive MetaResult where
   | outOfLines (consumed_lines : Nat)
   | gotMeta (m : Bytes)
 deriving Repr, DecidableEq
+
+/-- what `repair::add_missing_data` does to things outside itself, in order: empty the cache
+(`downsampled.data.clear()`), set `lines_to_skip`, replay the source from a position through `process` -/
+inductive CatchUp where
+  | clear
+  | skip (n : Nat)
+  | replay (pos : Impl.Pos)
+deriving Repr, DecidableEq
+
+/-- the cache as `add_missing_data` sees it -/
+structure CacheView where
+  bucket_size : Nat
+  data : DataView
+  lines_to_skip : Nat
 
 /-- the part of `Index` the translated functions read -/
 structure Index where
